@@ -99,6 +99,10 @@ CHECKS["C20"]["text"] = CHECKS["C20"]["text"] + " Serve level: after every repla
 CHECKS["C20"]["note"] = SERVER_NOTE
 CHECKS["C14"]["engine"] = "ref+lifecycle"
 CHECKS["C14"]["text"] = CHECKS["C14"]["text"] + " Accept loop: injected temporary non-timeout Accept errors (EMFILE) must not make Serve return; connections offered afterwards are still served."
+CHECKS["C15"] = dict(engine="conc", design_ref="5/C15", category="model_checking",
+   technique="LoaderConc.tla (update/query loop: generations of providers and filters, three-step lookups) model-checked by TLC (AtomicLookup, CurrentLookup, NoSharedRead); every TLC schedule replayed on the real loader through verif gate hooks; Trace_LoaderConc.tla judges each lookup's answer with Admission.tla against the generations in force; supplementary sensor: the Go race detector on a concurrent AAA + reload + shutdown workload",
+   text="Atomic reload: all interleavings of {reload = build then filters} x {lookup = spawn, deny test, allow test, provider search} for 2-3 lookups and 3 generations are enumerated by TLC; each schedule parks the real goroutines at the hooks l.build / l.q1..q3; configurations of consecutive generations give different answers for the probed addresses, so a lookup that combines the filters of one generation with the providers of another returns an answer no single generation gives - TLC checks every answer is that of one generation in force during the lookup, and that no configuration handed to the loader was written. Data races: the harness built with -race runs 16-32 concurrent connections (PAP/ASCII logins, command authorization with match patterns, session authorization, accounting) against 80-400 reloads and a final shutdown, with nothing in the harness serialising them; every race report with a frame in the repository is a violation.",
+   note="Trusted: TLC, the verif gate hooks, the Go race detector (a supplementary sensor OUTSIDE the TLA+ family, stated in DESIGN.md: the model names the loader's shared locations, the runtime monitor sees all). Race detection is schedule dependent: a clean run is no proof of absence.")
 CHECKS["C07"]["engine"] = "server+ref"
 CHECKS["C07"]["technique"] = CHECKS["C07"]["technique"] + "; reference-server part: " + REF_TECH + "counts handler invocations and written packets per request for every handler path and configuration"
 CHECKS["C07"]["text"] = CHECKS["C07"]["text"] + " Reference level: the same count on the real reference server for every AAA path (well-formed, malformed, non-ASCII, out-of-place requests; users with and without authenticator/accounter/groups), with Handlers.tla predicting the single reply."
@@ -108,6 +112,8 @@ CHECKS["C05"] = dict(engine="framing", design_ref="5/C05", category="model_check
    note="Trusted: TLC, the scripted net.Conn (returns exactly the scripted chunk per Read). Chunkings and body lengths are seeded samples; exhaustive only in the scaled model.")
 
 ENGINES = [
+ {"name": "conc", "path": "lib/conc_family.py + spec/LoaderConc.tla, MC_LoaderConc.tla, Trace_LoaderConc.tla, Admission.tla + harness/conc.go",
+  "serves_properties": ["C15"], "kind_free_text": "interleaving model check + gated schedule replay; -race workload as supplementary sensor"},
  {"name": "lifecycle", "path": "lib/lifecycle_family.py, lib/combo.py + spec/Lifecycle.tla, MC_Lifecycle.tla, Trace_Lifecycle.tla + harness/life.go, fakenet.go (logical clock)",
   "serves_properties": ["C17", "C20", "C14"], "kind_free_text": "safety + liveness model checking, schedule replay on the real Serve"},
  {"name": "reload", "path": "lib/reload_family.py + spec/Reload.tla, MC_Reload.tla, Trace_Reload.tla + harness/reload.go",
